@@ -180,7 +180,7 @@ pub fn eval(p: &Parameters, variant: usize, q: &Joints, eps: f64, limits: usize)
 
 pub fn run(ctx: &Ctx) -> Report {
     let thorough = !ctx.quick();
-    let robots = robot_axis(if thorough { 1 } else { 0 }, &[6]);
+    let robots: Vec<Parameters> = if thorough { robot_axis(1, &[6]).into_iter().step_by(3).collect() } else { robot_axis(0, &[6]) };
     let ax: [Vec<f64>; 6] = if thorough {
         [vec![0.4, -2.4, 3.0], vec![-0.9, 0.5, 1.4], vec![-1.9, 0.8, 0.3], vec![0.3, -1.3, 2.9], vec![0.6, -1.2, 2.2], vec![0.2, 2.5]]
     } else {
